@@ -61,6 +61,7 @@ func ruleBlockVerificationChain(r *Run, rule string) {
 func checkC01(r *Run) {
 	r.Explain = "C01: (R1) VerifyTransactionCoinsSpending succeeds only with sum(in)==sum(out), both sums built solely through the checked AddUint64 fold; (R2) every path from block execution to the store passes that check with the inputs looked up in the unspent pool and the outputs the transaction creates; (R3) zero-coin/overflow output checks; (R4) ownership: the unspent-pool bucket is written only by pool.put/pool.delete, called only from Unspents.ProcessBlock, reached only from block execution; (R5) what ProcessBlock deletes are the looked-up inputs and what it puts are CreateUnspents of the block's transactions, with Coins copied field-to-field; (R6) no raw + or * on Coins-derived values in the consensus packages; (R7) genesis is the only coin-creating output."
 	r.NotDec = "that the stored UTXO sum equals the genesis volume for a concrete history (a value); bolt transaction atomicity (trusted)"
+	ruleChainConfigPassthrough(r, "C01-R2")
 
 	// R1
 	r.RequireOnSuccess("C01-R1", "coin.VerifyTransactionCoinsSpending",
@@ -232,4 +233,18 @@ func isCoinAmount(t string) bool {
 		return false
 	}
 	return !strings.Contains(t, "MultUint64") && !strings.Contains(t, "Hours") && !strings.Contains(t, " / ") && !strings.Contains(t, " % ")
+}
+
+// ruleChainConfigPassthrough: visor.New builds the Blockchain with exactly the configured public key and
+// arbitration flag (arbitrating mode silently drops invalid transactions of received blocks, so it must not
+// be switched on by anything but the explicit configuration).
+func ruleChainConfigPassthrough(r *Run, rule string) {
+	fn := r.fn(rule, "visor.New")
+	if fn == nil {
+		return
+	}
+	fs := r.fieldStores(fn)
+	r.Check(rule, "visor.New: BlockchainConfig.Arbitrating is Config.Arbitrating as given", r.P.Pos(fn.Pos()), fs["Arbitrating"] == "$0.Arbitrating", fs["Arbitrating"])
+	r.Check(rule, "visor.New: BlockchainConfig.Pubkey is Config.BlockchainPubkey as given", r.P.Pos(fn.Pos()), fs["Pubkey"] == "$0.BlockchainPubkey", fs["Pubkey"])
+	r.RequireOnSuccess(rule, "visor.Config.Verify", req("a publisher must arbitrate", "when: $0.IsBlockPublisher => $0.Arbitrating", "*IsBlockPublisher*"))
 }
